@@ -22,6 +22,8 @@ pub fn gen_case3(prop: &str, seed: u64, thorough: bool, rng: &mut Rng) -> Case {
             cfg.strategy = draw_strategy(rng, &crate::profiles::CLASSES_ALL);
             let mut g = Gen { rng: Rng::new(rng.next_u64()), next_uid: 1 };
             let n = rng.range(3, 14) as usize;
+            cfg.n_readers = if rng.chance(1, 2) { 1 } else { 0 };
+            cfg.second_index_reader = rng.chance(1, 2);
             let mut ops = gen_history(&mut g, &cfg, n, rng.chance(1, 2), true, true);
             // an explicit collection right after some merges: a failed merge publication followed
             // by GC is where in-memory and on-storage metadata can disagree
@@ -29,6 +31,9 @@ pub fn gen_case3(prop: &str, seed: u64, thorough: bool, rng: &mut Rng) -> Case {
             while k < ops.len() {
                 if matches!(ops[k], Op::Merge { .. } | Op::MergeWait) && rng.chance(1, 3) {
                     ops.insert(k + 1, Op::Gc);
+                    k += 1;
+                } else if cfg.n_readers > 0 && rng.chance(1, 5) {
+                    ops.insert(k + 1, Op::Reload(0));
                     k += 1;
                 }
                 k += 1;
@@ -107,6 +112,14 @@ fn body_fault(case: &Case) -> RunOut {
         }
     };
     e.fault_profile = true;
+    e.fault_profile_reads = true;
+    if case.cfg.n_readers > 0 {
+        // a reader (sometimes on a second Index of the same storage) reloaded by the client thread
+        if let Err(m) = crate::profiles4::setup_readers(&mut e, false) {
+            crate::profiles4::READERS.with(|r| *r.borrow_mut() = None);
+            return harness_fail(m);
+        }
+    }
     e.dir.arm(true);
     e.run_ops();
     let fired = e.dir.with(|s| s.first_fault_at.is_some());
@@ -123,9 +136,19 @@ fn body_fault(case: &Case) -> RunOut {
     tantivy::verif_sim::with_knobs(|k| k.fail_spawn_at = None);
     sched::set_calm(true);
     if !e.out.violations.is_empty() {
+        crate::profiles4::READERS.with(|r| *r.borrow_mut() = None);
         return e.finish();
     }
     recover_and_check(&mut e);
+    if let Some(side) = crate::profiles4::READERS.with(|r| r.borrow_mut().take()) {
+        // what the reader saw during the faulty phase was always one whole allowed commit
+        let evs: Vec<crate::profiles4::ReaderEvent> = side.events.lock().unwrap().clone();
+        drop(side);
+        if e.out.violations.is_empty() {
+            crate::profiles4::check_reader_events(&mut e, &evs, "C11");
+        }
+        e.out.probe_n("reader_events", evs.len() as u64);
+    }
     sched::set_calm(false);
     e.finish()
 }
